@@ -1320,6 +1320,7 @@ func ledgerConcFinal(w *World, s *Sched, recs []callRec, res *execResult) {
 	if res.viol != nil || w.ledger == nil {
 		return
 	}
+	w.ledger.concurrent = true
 	// every key is updated by one thread only; its calls are in program
 	// order in recs, so the location an update supersedes is the one the
 	// previous update of that key produced (or the initial one)
@@ -1418,6 +1419,15 @@ func c13ConcScenarios(tier string) []*ConcScenario {
 			sc.Desc = fmt.Sprintf("init [%s]; %s", opsString(init), progString(ths))
 			scs = append(scs, sc)
 		}
+		// with unflushed work at the start, so that a Flush thread commits
+		// (primary, then index, then freelist) while K0 is overwritten twice
+		init2 := append(append([]Op{}, init...), P(4, 2))
+		ths := [][]Op{{P(0, 2), P(0, 3)}, {opF}, gc}
+		sc := &ConcScenario{Prop: "C13", Cfg: c, Init: init2, Threads: ths, Bound: bound, Exec: execStore,
+			Extra: map[string]any{"logSites": true, "final": ledgerConcFinal}}
+		sc.Name = fmt.Sprintf("c13/%s/unflushed/%s", c.String(), progString(ths))
+		sc.Desc = fmt.Sprintf("init [%s]; %s", opsString(init2), progString(ths))
+		scs = append(scs, sc)
 	}
 	return scs
 }
